@@ -271,7 +271,7 @@ func (sc *Scenario) Build(w *World) error {
 			"apiVersion": "autoscaling/v2", "kind": "HorizontalPodAutoscaler",
 			"metadata": map[string]interface{}{"namespace": ns, "name": AppName},
 			"spec": map[string]interface{}{"minReplicas": int64(1), "maxReplicas": int64(10),
-				"scaleTargetRef": map[string]interface{}{"apiVersion": "apps/v1", "kind": sc.Kind, "name": AppName}},
+				"scaleTargetRef": map[string]interface{}{"apiVersion": map[string]string{"CloneSet": "apps.kruise.io/v1alpha1"}[sc.Kind] + map[bool]string{true: "", false: "apps/v1"}[sc.Kind == "CloneSet"], "kind": sc.Kind, "name": AppName}},
 		}}
 		if err := w.Raw.Create(ctx, hpa); err != nil {
 			return err
